@@ -109,6 +109,9 @@ func (vc *VC) selectScripts(prop, only string) *Selected {
 		sel.Scripts = append(sel.Scripts, sc)
 		for _, cc := range con.Cases {
 			cname := name + "#" + cc.CaseName
+			if len(cc.Props) > 0 && !hasProp(cc.Props, prop) {
+				continue // the case is tagged for other properties only
+			}
 			if cc.ThoroughOnly && !thorough {
 				sel.Deferred = append(sel.Deferred, cname)
 				continue
